@@ -6,12 +6,13 @@ import (
 	"sort"
 	"strconv"
 	"strings"
+	"verif/harness/hlib"
 
 	"github.com/unixpickle/model3d/model2d"
 	"github.com/unixpickle/model3d/model3d"
 )
 
-func init() { registry["C09"] = runC09 }
+func main() { hlib.Main("C09", runC09) }
 
 // ---------------------------------------------------------------------------
 // key pools: canonical ids (Go ==) with several raw representatives each
@@ -69,7 +70,7 @@ func findCollision2(x float64) (float64, bool) {
 }
 
 // pool3 builds a key pool: lattice points, signed-zero variants, colliding pairs.
-func pool3(c *Ctx) []key3 {
+func pool3(c *hlib.Ctx) []key3 {
 	var pool []key3
 	nz := negZero()
 	// signed-zero family: every sign pattern of (0,0,0) is ONE key.
@@ -140,7 +141,7 @@ func keySetStr(ids []int) string {
 
 // checkHashRespectsEq3 evaluates the hypothesis the refinement theorem needs
 // of the real hash: keys that are == must hash alike.
-func checkHashRespectsEq3(c *Ctx, pool []key3) bool {
+func checkHashRespectsEq3(c *hlib.Ctx, pool []key3) bool {
 	ok := true
 	for id, k := range pool {
 		h0 := model3d.VerifFastHash64(k.reps[0])
@@ -166,7 +167,7 @@ func idOf3(pool []key3, p model3d.Coord3D) int {
 	return -1
 }
 
-func runC09(c *Ctx) {
+func runC09(c *hlib.Ctx) {
 	pool := pool3(c)
 	if !checkHashRespectsEq3(c, pool) {
 		c.Stat("c09.hash_eq_violations", 1)
@@ -189,7 +190,7 @@ func runC09(c *Ctx) {
 		var ops, outs []string
 		nops := 1 + c.Rng.Intn(40)
 		crossed := false
-		res := Guard(func() string {
+		res := hlib.Guard(func() string {
 			for i := 0; i < nops; i++ {
 				id, k := pick()
 				switch c.Rng.Intn(8) {
@@ -248,7 +249,7 @@ func runC09(c *Ctx) {
 		var ops, outs []string
 		nops := 1 + c.Rng.Intn(40)
 		crossed := false
-		res := Guard(func() string {
+		res := hlib.Guard(func() string {
 			for i := 0; i < nops; i++ {
 				id, k := pick()
 				switch c.Rng.Intn(8) {
@@ -303,7 +304,7 @@ func runC09(c *Ctx) {
 // ---------------------------------------------------------------------------
 // model2d twin of the slice histories
 
-func runC09Maps2D(c *Ctx) {
+func runC09Maps2D(c *hlib.Ctx) {
 	nz := negZero()
 	type key2 struct{ reps []model2d.Coord }
 	pool := []key2{
@@ -347,7 +348,7 @@ func runC09Maps2D(c *Ctx) {
 		var ops, outs []string
 		nops := 1 + c.Rng.Intn(40)
 		crossed := false
-		res := Guard(func() string {
+		res := hlib.Guard(func() string {
 			for i := 0; i < nops; i++ {
 				id := c.Rng.Intn(len(pool))
 				k := pool[id].reps[c.Rng.Intn(len(pool[id].reps))]
